@@ -170,8 +170,13 @@ func doSign(info *nfpm.Info, debianBinary, controlTarGz, dataTarball []byte, dat
 	switch info.Deb.Signature.Method {
 	case "dpkg-sig":
 		return dpkgSign(info, debianBinary, controlTarGz, dataTarball, dataTarballName)
-	default:
+	case "", "debsign":
 		return debSign(info, debianBinary, controlTarGz, dataTarball)
+	default:
+		// a misspelt method must not silently produce the other kind of signature
+		return nil, "", &nfpm.ErrSigningFailure{
+			Err: fmt.Errorf("invalid signature method %q: must be debsign or dpkg-sig", info.Deb.Signature.Method),
+		}
 	}
 }
 
